@@ -149,6 +149,10 @@ class World:
                 # timestamp, a 64-bit id)
                 return (2 ** 31 + 5, -(2 ** 31) - 5, 1600000000000,
                         10 ** 20)[(h // 7) % 4]
+            if h % 23 == 0:
+                # a flag column read back as a Python bool: an Int field
+                # answers 1 / 0 (an integer), never true / false
+                return bool(h & 32)
             return (h % 2001) - 1000
         if base == "Float":
             if self.nonfinite and h % 5 == 0:
